@@ -452,6 +452,67 @@ def byte_mutations(rng, data, n):
     return out
 
 
+def render_xs(rng, objs, root, mut=None):
+    """xref-stream layout with one uncompressed object stream holding the non-stream objects other than the
+    root.  mut: {'ofs': (k, v)} k-th header offset := v; {'id': (k, v)}; {'N': v}; {'First': v}; {'W': [..]};
+    {'idx': v} index field of a type-2 entry."""
+    mut = mut or {}
+    out = bytearray(b'%PDF-1.5\n%\xe2\xe3\xcf\xd3\n')
+    nums = sorted(objs)
+    members = [n for n in nums if objs[n][0] != 'stream' and n != root][:rng.randrange(1, 6)]
+    stm_num = max(nums) + 1
+    xs_num = max(nums) + 2
+    offs = {}
+    for n in nums:
+        if n in members:
+            continue
+        v = objs[n]
+        offs[n] = len(out)
+        out += b'%d 0 obj\n' % n
+        if v[0] == 'stream':
+            out += L.spell(rng, ('dict', list(v[1]) + [(b'Length', I(len(v[2])))])) + b'\nstream\n' + v[2] + b'\nendstream'
+        else:
+            out += L.spell(rng, v)
+        out += b'\nendobj\n'
+    # the object stream
+    bodies, hdr, pos = b'', [], 0
+    for k, n in enumerate(members):
+        b = L.spell(rng, objs[n]) + b' '
+        ident = mut['id'][1] if mut.get('id', (None,))[0] == k else n
+        off = mut['ofs'][1] if mut.get('ofs', (None,))[0] == k else pos
+        hdr.append(b'%d %d' % (ident, off))
+        bodies += b
+        pos += len(b)
+    header = b' '.join(hdr) + b'\n'
+    data = header + bodies
+    offs[stm_num] = len(out)
+    sd = [(b'Type', N('ObjStm')), (b'N', I(mut.get('N', len(members)))), (b'First', I(mut.get('First', len(header)))), (b'Length', I(len(data)))]
+    out += b'%d 0 obj\n' % stm_num + L.spell(rng, ('dict', sd)) + b'\nstream\n' + data + b'\nendstream\nendobj\n'
+    # the xref stream
+    xo = len(out)
+    offs[xs_num] = xo
+    size = xs_num + 1
+    w = mut.get('W', [1, 4, 2])
+    rows = b''
+    for n in range(size):
+        if n in members:
+            ix = members.index(n)
+            if 'idx' in mut and ix == 0:
+                ix = mut['idx']
+            t, a, b = 2, stm_num, ix
+        elif n in offs:
+            t, a, b = 1, offs[n], 0
+        else:
+            t, a, b = 0, 0, 65535 if n == 0 else 0
+        rows += (t % 256 ** max(w[0], 1)).to_bytes(w[0], 'big') if w[0] else b''
+        rows += (a % 256 ** w[1]).to_bytes(w[1], 'big') if w[1] else b''
+        rows += (b % 256 ** max(w[2], 1)).to_bytes(w[2], 'big') if w[2] else b''
+    xd = [(b'Type', N('XRef')), (b'Size', I(mut.get('size', size))), (b'W', A(*[I(x) for x in w])), (b'Root', R(root)), (b'Length', I(len(rows)))]
+    out += b'%d 0 obj\n' % xs_num + L.spell(rng, ('dict', xd)) + b'\nstream\n' + rows + b'\nendstream\nendobj\n'
+    out += b'startxref\n%d\n%%%%EOF\n' % mut.get('startxref', xo)
+    return bytes(out)
+
+
 def vdepth(v):
     if v[0] == 'arr':
         return 1 + max([vdepth(x) for x in v[1]] + [0])
@@ -540,6 +601,19 @@ def cases(tier, rng):
                 out.append('B ' + render_simple(random.Random(seed), objs, root, {'length': {k: ln}}).hex())
         for m in byte_mutations(rng, base, 4 if not big else 10):
             out.append('B ' + (m.hex() or '-'))
+        # xref-stream + object-stream layout of the same document, and hostile header numbers
+        try:
+            out.append('B ' + render_xs(random.Random(seed), objs, root).hex())
+            for _ in range(6 if not big else 16):
+                key = rng.choice(['ofs', 'ofs', 'id', 'N', 'First', 'idx', 'size', 'startxref'])
+                v = rng.choice(EXTREMES + [5, 21, 500, 10 ** 6, 2 ** 64 - 1])
+                if key in ('ofs', 'id'):
+                    v = (rng.randrange(0, 3), abs(v))
+                elif key in ('N', 'First', 'idx', 'size', 'startxref'):
+                    v = abs(v)
+                out.append('B ' + render_xs(random.Random(seed), objs, root, {key: v}).hex())
+        except Exception:
+            pass
     # histories from the loader generator (xref streams, object streams, hybrid, /Prev chains) and byte mutations of them
     for _ in range(60 if not big else 400):
         try:
